@@ -27,6 +27,7 @@ import (
 	"sync/atomic"
 
 	gerrors "github.com/tochemey/goakt/v4/errors"
+	"github.com/tochemey/goakt/v4/internal/verifhook"
 )
 
 // grainMailbox is a lock-free multi-producer, single-consumer (MPSC)
@@ -74,6 +75,7 @@ func (m *grainMailbox) Enqueue(value *GrainContext) error {
 // not release it — the next Dequeue will. The previous sentinel is
 // reset and returned to the shared GrainContext pool.
 func (m *grainMailbox) Dequeue() *GrainContext {
+	verifhook.At("gm.deq", m, 0, 0)
 	head := m.head.Load()
 	next := head.next.Load()
 
@@ -114,6 +116,7 @@ func (m *grainMailbox) Len() int64 {
 
 // IsEmpty reports whether the mailbox currently holds no messages.
 func (m *grainMailbox) IsEmpty() bool {
+	verifhook.At("gm.isempty", m, 0, 0)
 	return m.Len() == 0
 }
 
@@ -139,7 +142,9 @@ func (m *grainMailbox) tryEnqueue(value *GrainContext) bool {
 	value.next.Store(nil)
 
 	// swap tail, then link prev.next.
+	verifhook.At("gm.enq.swap", m, 0, 0)
 	prev := m.tail.Swap(value)
+	verifhook.At("gm.enq.link", m, 0, 0)
 	prev.next.Store(value)
 
 	// unbounded increments after linking.
